@@ -229,6 +229,16 @@ def wait_accept():
     }}
 
 
+def wait_and_acceptor():
+    """p waits for a Resp while ANOTHER step q accepts Resp as its input: the response wakes p's wait AND is handed to q."""
+    return {"timeout": None, "steps": {
+        "x": {"accepts": ["Start"], "nw": 1, "body": [{"op": "send", "ty": "A", "n": 1}, G, {"op": "none"}]},
+        "p": {"accepts": ["A"], "nw": 1, "returns": ["Stop"],
+              "body": [{"op": "wait", "ty": "Resp", "wid": "wp", "timeout": None, "wev": True}, G, {"op": "none"}]},
+        "q": {"accepts": ["Resp"], "nw": 1, "body": [G, {"op": "none"}]},
+    }}
+
+
 def fanout_dup(nw=2, n=3):
     """a sends n EQUAL-VALUED events (same uid, same payload) to b (nw workers): invocations must still be told apart by
     their worker slot, not by their event."""
@@ -382,6 +392,7 @@ def family(name, quick=True):
             out.append(("targeted(3)", targeted(3), [("A", "c"), ("A", None)]))
         out.append(("ask", ask(), [("Resp", None), ("A", None)]))
         out.append(("wait_accept", wait_accept(), [("Resp", None)]))
+        out.append(("wait_and_acceptor", wait_and_acceptor(), [("Resp", None)]))
         out.append(("overlap_retry(1,1,2)", overlap_retry(1, 1, 2), []))
     elif name == "collect":
         out.append(("collect_then_wait", collect_then_wait(), [("Resp", None)]))
